@@ -550,7 +550,7 @@ func runSolver(ctx context.Context, s SolverSpec, file string, ms int) solveResu
 func discharge(o *Oblig, dir string, idx int, ms int, all bool) {
 	if o.Cover || o.Quick {
 		// vacuity guards are best effort: a short time limit, "undecided" is not a failure
-		ms = ms / 5
+		ms = ms / 10
 		all = false
 	}
 	file := filepath.Join(dir, fmt.Sprintf("q%05d.smt2", idx))
@@ -576,8 +576,18 @@ func discharge(o *Oblig, dir string, idx int, ms int, all bool) {
 	var notes []string
 	var agree []string
 	decided := ""
+	var grace <-chan time.Time
+loop:
 	for i := 0; i < n; i++ {
-		r := <-ch
+		var r solveResult
+		select {
+		case r = <-ch:
+		case <-grace:
+			// cross-check window over: the other solvers had five seconds plus three times the
+			// winner's time to contradict the answer
+			notes = append(notes, "cross-check window closed")
+			break loop
+		}
 		notes = append(notes, fmt.Sprintf("%s:%s:%.2fs", r.solver, r.ans, r.secs))
 		if r.ans == "error" {
 			notes = append(notes, strings.TrimSpace(firstLines(r.out, 3)))
@@ -589,20 +599,23 @@ func discharge(o *Oblig, dir string, idx int, ms int, all bool) {
 			}
 			agree = append(agree, r.solver)
 			if !all {
-				break
+				break loop
+			}
+			if grace == nil {
+				grace = time.After(5*time.Second + time.Duration(3*r.secs*float64(time.Second)))
 			}
 		} else if r.ans == bad {
 			if decided == want {
 				o.Detail = "SOLVER DISAGREEMENT: " + strings.Join(notes, " ")
 				decided = "conflict"
-				break
+				break loop
 			}
 			if decided == "" {
 				decided = bad
 				o.Solver, o.Secs = r.solver, r.secs
 			}
 			if !all {
-				break
+				break loop
 			}
 		}
 	}
